@@ -360,7 +360,7 @@ def hist_random(rng, nchunks, src):
     ops = []
     for _ in range(rng.choice([1, 1, 2, 2, 3, 4, 5])):
         kind = rng.choice(["peek", "next", "next", "iter", "islice", "zip", "abort", "abort", "pass", "probe", "nested",
-                           "indicator", "len"] + (["write", "create"] if src in ("df", "random") else []))
+                           "indicator", "len"] + (["write", "write", "create"] if src in ("df", "random") else []))
         j = rng.randrange(0, nchunks + 2)
         if kind in ("peek", "iter", "pass", "nested", "len", "write", "create"):
             ops.append((kind,))
@@ -419,14 +419,16 @@ def history_cases(ctx, readers, terms, metas, idx):
         return rng.choice([max(1, cs - 1), cs, cs + 1, 2 * cs])
 
     plan = []
-    terminals = ["write-centers", "write-name", "create", "direct"]
-    k = 0
+    # create_patch_centers (treecorr) costs about a second: one final pass in nine (every source meets it in every run)
+    terminals = ["write-centers", "write-name", "create", "direct", "write-centers", "write-name", "direct",
+                 "write-centers", "write-name"]
+    k = rng.randrange(9)
     for src in HIST_SOURCES:
         for hist in hist_core():
             cs = rng.choice([1, 2, 3, 4, 5, 7])
-            plan.append((src, shape(cs), cs, hist, terminals[k % 4], 0))
+            plan.append((src, shape(cs), cs, hist, terminals[k % 9], 0))
             k += 1
-    for _ in range(ctx.n(45, 500)):
+    for _ in range(ctx.n(45, 400)):
         src = rng.choice(HIST_SOURCES)
         cs = rng.choice([1, 2, 3, 4, 5, 7, 9])
         n = shape(cs, big=rng.random() < 0.8)
